@@ -36,6 +36,19 @@ Proof. exact split_ping_data. Qed.
 Theorem escaped_bounded : forall s : str, escaped (run_state split_init s) <= 1.
 Proof. exact reachable_escaped_le_1. Qed.
 
+(** The splitter invents nothing. For EVERY line -- encoded by kvarnctl or typed by hand, with
+    unbalanced quotes, dangling backslashes, any code points -- the tokens laid end to end are
+    the line with some characters (separators, quotes, escaping backslashes) left out: no
+    character is invented, duplicated or moved, so an argument can only ever contain what the
+    operator sent, in the order it was sent. *)
+Theorem split_invents_nothing : forall s : str, subseq (concat (quoted_str_split s)) s.
+Proof. exact split_subseq. Qed.
+
+(** ... hence the arguments a plugin receives are never longer, in total, than the request. *)
+Theorem split_no_amplification : forall s : str,
+  (length (concat (quoted_str_split s)) <= length s)%nat.
+Proof. exact QuotedProofs.split_no_amplification. Qed.
+
 (** UTF-8: what the server decodes is what the client's string was. *)
 Theorem utf8_decode_encode : forall s : str, all_scalar s = true -> utf8_decode (utf8_encode s) = Some s.
 Proof. exact utf8_roundtrip. Qed.
@@ -585,6 +598,9 @@ Example ex_client : client_message (B "clear") [B "file"; B "my host"; B "/a b"]
 Proof. vm_compute. reflexivity. Qed.
 Example ex_plain : B "shutdown" <> [] /\ forallb plain_char (B "shutdown") = true.
 Proof. split; [discriminate|vm_compute; reflexivity]. Qed.
+Example ex_invents_nothing :
+  quoted_str_split [112; 32; 34; 97; 32; 92; 98] = [[112]; [97; 32; 98]].
+Proof. vm_compute. reflexivity. Qed.
 Example ex_escaped : escaped (run_state split_init [92]) = 1.
 Proof. vm_compute. reflexivity. Qed.
 Example ex_utf8 : all_scalar [97; 233; 8364; 128512; 1114111] = true
